@@ -64,6 +64,7 @@ def _plan(ctx, w):
         rates = {'never_activates': 0.15, 'preempt': 1.0, 'create_fails': 0.1}
         plan['cloud'] = {k: v for k, v in rates.items() if s.draw(2)}
     plan['crash'] = s.draw(3) == 1  # up to two crash/restarts of the driver process in this run
+    plan['crash_fe'] = s.draw(4) == 1  # ... and of the front-end process
     return plan
 
 
@@ -229,6 +230,16 @@ async def chaos_actor(ctx, w, st):
             st['restart_task'] = asyncio.ensure_future(restart_driver(w))
             await asyncio.shield(st['restart_task'])
             st['driver_down'] = False
+        if st['plan'].get('crash_fe') and st['fe_crashes'] < 2 and s.draw(4) == 0:
+            # the front-end process dies (mid-submission, mid-commit, mid-cancel) and comes back later
+            st['fe_crashes'] += 1
+            st['fe_down'] = True
+            st['fe_restart'] = None
+            w.crash_front_end()
+            await asyncio.sleep(s.rint(1, 15))
+            st['fe_restart'] = asyncio.ensure_future(w.restart_front_end())
+            await asyncio.shield(st['fe_restart'])
+            st['fe_down'] = False
 
 
 def run(ctx):
@@ -241,7 +252,8 @@ def run(ctx):
     w.compact_billing = cfg.draw(2) == 1
     w.billing_period = (60.0, 20.0, 7.0)[cfg.draw(3)]
     w.max_job_ticks = (3000, 20000, 200)[cfg.draw(3)]
-    st = {'batches': {}, 'clients_done': 0, 'heal': False, 'plan': None, 'crashes': 0, 'driver_down': False}
+    st = {'batches': {}, 'clients_done': 0, 'heal': False, 'plan': None, 'crashes': 0, 'driver_down': False,
+          'fe_crashes': 0, 'fe_down': False}
     orc = {}
 
     async def main(loop):
@@ -346,6 +358,12 @@ def run(ctx):
             else:
                 await restart_driver(w)
         st['driver_down'] = False
+        if st['fe_down']:
+            if st.get('fe_restart') is not None:
+                await st['fe_restart']
+            else:
+                await w.restart_front_end()
+        st['fe_down'] = False
         if pending:
             d2, p2 = await asyncio.wait(pending, timeout=300)
             for t in d2:
